@@ -320,6 +320,21 @@ func TestC10(t *testing.T) {
 			return ""
 		})
 	}
+	// very long paths (chains of 8-16 containers), executed one after the other on the same pools: the helper objects
+	// that build a path grow, are handed back, and serve the next execution
+	for _, mode := range []string{"parse", "validate"} {
+		mode := mode
+		hh.Sub(h, "long-paths-"+mode, h.N(1500, 8000), func(rt *rapid.T) feCase {
+			root, val := model.GenChain(rt, rapid.IntRange(8, 16).Draw(rt, "depth"))
+			return feCase{Root: root, Logical: val, FE: model.FEMap, Mode: mode}
+		}, func(c feCase) hh.Verdict {
+			v := propC10(c)
+			if v.Skip == "" && v.Err == "" {
+				v.Nontrivial = contains(v.Classes, "path>=6-segments")
+			}
+			return v
+		})
+	}
 	// issues that come from a PostTransform's returned error are keyed by their own node's path too, whatever options
 	// (IssuePath ...) the tests of other nodes carry: mostly valid records, so that the failing transform is reached
 	pe := base
